@@ -9,7 +9,6 @@ ID = "C20"
 PROPS_MODULE = "AslProps.C20"
 DRIVER = "c20"
 P = (1 << 61) - 1
-HARNESS_FLAGS = ("-O0",)   # the harness is template-heavy: 5 s instead of 22 s to compile, run time is irrelevant here
 
 RULE = ("cases = groups of single calls on generated operands. Exact part (real templates instantiated over the prime field "
         "2^61-1): Matrix4/Matrix3 det, inverse, M*inverse(M), products, transposes, vector products on uniformly random, "
